@@ -79,6 +79,22 @@ def run_area(spec):
                 "rm": ih(np.ma.getmaskarray(rows)), "r": ih(np.ma.getdata(rows))}
     out["area_proj"] = guarded(m_area_proj) if len(xs) else {"x": [], "y": [], "cm": [], "c": [], "rm": [], "r": []}
 
+    def m_area_alias():
+        """deprecated aliases must return exactly what the function they stand for returns (masks and data)"""
+        def same(f, g, *args):
+            try:
+                c1, r1 = f(*[v.copy() for v in args])
+            except Exception as e:
+                return "error %s: %s" % (type(e).__name__, str(e)[:120])
+            c0, r0 = g(*[v.copy() for v in args])
+            ok = all(np.array_equal(np.ma.getmaskarray(p), np.ma.getmaskarray(q)) and np.array_equal(np.ma.getdata(p), np.ma.getdata(q))
+                     for p, q in ((c1, c0), (r1, r0)))
+            return "same" if ok else "differs"
+        return {"get_xy_from_lonlat": same(area.get_xy_from_lonlat, area.get_array_indices_from_lonlat, lons, lats),
+                "lonlat2colrow": same(area.lonlat2colrow, area.get_array_indices_from_lonlat, lons, lats),
+                "get_xy_from_proj_coords": same(area.get_xy_from_proj_coords, area.get_array_indices_from_projection_coordinates, xs, ys)}
+    out["area_alias"] = guarded(m_area_alias) if len(xs) else {}
+
     def m_area_scalar():
         res = []
         for i in spec.get("scalar", []):
